@@ -66,6 +66,7 @@ def tasks(tier, seed):
                   ['Linear', 'AdvancedAPI', 'Add'], ['AdvancedAPI', 'Polynomial'], ['AdvancedAPI', 'AdvancedAPI', 'Subtract']):
         ts.append(dict(kind='graph', types=types, declared=True))
     ts.append(dict(kind='concrete-purity'))
+    ts.append(dict(kind='chain'))
     ts.append(dict(kind='lookup'))
     # purity of the sensor scale types (their formulas are C17's subject; that they leave the raw array alone is C13's)
     from . import c17
@@ -257,6 +258,16 @@ def _cp_run(si, via, dt, on_scale_error=None):
         return 'scale-modifies-raw-data', dict(scale=name, before=vals, after=[float(v) for v in arr])
     if out1.tobytes() != out2.tobytes():
         return 'second-scaling-differs', dict(scale=name, first=[float(v) for v in out1], second=[float(v) for v in out2])
+    if dt == 1 and name.split('-')[0] in ('Strain', 'Thermistor'):
+        # sensor laws hold to 1e-6 relative whatever float type stores the voltage: the float32 samples, widened, must give the same result
+        # (RTD is left out: it computes float32 input in float32 - the recorded C14 finding SingleFloat/RTD - and is 4e-6 off for that reason)
+        with warnings.catch_warnings():
+            warnings.simplefilter('ignore')
+            ref = np.array(ms.scale(Raw(arr.astype('float64'))), dtype='float64')
+        o = np.array(out1, dtype='float64')
+        bad = [i for i in range(len(o)) if np.isfinite(ref[i]) and not abs(o[i] - ref[i]) <= 1e-6 * max(abs(ref[i]), 1e-12)]
+        if bad:
+            return 'float32-input-loses-precision', dict(scale=name, float32_result=[float(v) for v in o], float64_result=[float(v) for v in ref])
     return None
 
 
@@ -273,6 +284,51 @@ def _concrete_purity(ctx):
         ctx.fail(r[0], **r[1])
     ctx.discharged += 1
     ctx.note('purity')
+
+
+CHAIN_MAX = 24
+
+
+def _chain_props(n, declared):
+    props = {}
+    if declared:
+        props['NI_Number_Of_Scales'] = n
+    for i in range(n):
+        props['NI_Scale[%d]_Scale_Type' % i] = 'Linear'
+        props['NI_Scale[%d]_Linear_Slope' % i] = 2.0
+        props['NI_Scale[%d]_Linear_Y_Intercept' % i] = float(i)
+        props['NI_Scale[%d]_Linear_Input_Source' % i] = RAW if i == 0 else i - 1
+    return props
+
+
+def _chain_expected(n, x):
+    v = x
+    for i in range(n):
+        v = v * 2 + i
+    return v
+
+
+def _chain(ctx):
+    """a chain of n Linear scales (1 <= n <= 24), the number of scales declared or inferred from the property names: the result is
+    the output of the LAST scale (indices above 9 have two digits)"""
+    import nptdms.scaling as sc
+    n = 1 + ctx.choice('n', CHAIN_MAX)
+    declared = bool(ctx.choice('declared', 2))
+    x = z3.Real('x')
+    ctx.inputs['x'] = x
+    scaling = sc.get_scaling(_chain_props(n, declared), {}, {})
+    if scaling is None:
+        ctx.fail('no-scaling-found', n=n)
+    out = scaling.scale(Raw(rarr([x])))
+    ctx.obligations += 1
+    ctx.nqueries += 1
+    r, m = nra_check(list(ctx.pc) + [out[0].e != _chain_expected(n, x)])
+    if r == z3.sat:
+        raise Violation(dict(what='chain-value', inputs=ctx.model_inputs(m), n=n, declared=declared))
+    if r != z3.unsat:
+        raise Inconclusive('chain undecided')
+    ctx.discharged += 1
+    ctx.note('graph')
 
 
 def _lookup(ctx):
@@ -481,7 +537,7 @@ def run_task(task):
         st['notes'] = {'file-scaled-window': st['paths'],
                        'file-%s-scope' % task['scope']: st['paths']}
         return st
-    fn = dict(graph=lambda c: _graph(task, c), lookup=_lookup, daqmx=_daqmx, table=_table, **{'concrete-purity': _concrete_purity})[kind]
+    fn = dict(graph=lambda c: _graph(task, c), lookup=_lookup, daqmx=_daqmx, table=_table, chain=_chain, **{'concrete-purity': _concrete_purity})[kind]
     st = explore(fn, max_paths=20000, time_budget=900)
     st.pop('wall_s', None)
     return st
@@ -637,6 +693,14 @@ def _replay_graph(art):
         inp = art['inputs']
     if task['kind'] in ('lookup', 'daqmx', 'table'):
         return _replay_kernel(art)
+    if task['kind'] == 'chain':
+        import nptdms.scaling as sc
+        n, declared, x = 1 + int(inp.get('n', 0)), bool(int(inp.get('declared', 0))), _fl(inp.get('x', 1))
+        got = float(sc.get_scaling(_chain_props(n, declared), {}, {}).scale(Raw(np.array([x])))[0])
+        exp = _chain_expected(n, x)
+        if abs(got - exp) > 1e-9 * max(1.0, abs(exp)):
+            return dict(sig=signature(dict(task=task, what='chain-value')), n=n, declared=declared, x=x, got=got, expected=exp)
+        return None
     if task['kind'] == 'concrete-purity':
         r = _cp_run(int(inp.get('scale', 0)), int(inp.get('via', 0)), int(inp.get('dtype', 0)))
         if r is None:
